@@ -151,6 +151,7 @@ def tasks(tier, seed):
             out.append({"fn": "badkeys", "kwargs": {"det": det, "entry": entry}, "label": f"badkey/{det}/{entry}"})
     out.append({"fn": "disabled_model", "kwargs": {}, "label": "disabled_model_argument"})
     out.append({"fn": "list_values", "kwargs": {}, "label": "set/list_values"})
+    out.append({"fn": "list_pairs", "kwargs": {}, "label": "set/list_pairs"})
     out.append({"fn": "decimal_ints", "kwargs": {}, "label": "eval_entry/decimal_ints"})
     out.append({"fn": "eval_entry_literals", "kwargs": {}, "label": "eval_entry/literals"})
     out.append({"fn": "eval_entry_crosshair", "kwargs": {"maxlen": 3 if tier == "quick" else 4, "timeout": 40 if tier == "quick" else 240}, "label": "eval_entry/crosshair", "kind": "direct"})
@@ -302,7 +303,7 @@ def list_values():
 
     key = "pipeline.photon_collection.m1.arguments.opt"
     x = vx.real("x")
-    cases = {"falsy": ([0, False, 0.0, x], [0, False, 0.0, x]), "text": (["1", "2.5", "abc", "[1, 2]"], [1, 2.5, "abc", [1, 2]]), "empty_string": ([""], [""]),
+    cases = {"falsy": ([0, False, 0.0, x], [0, False, 0.0, x]), "text": (["1", "2.5", "abc", "[1, 2]"], [1, 2.5, "abc", [1, 2]]), "empty_string": ([""], [""]), "mixed": ([60.0, "1e2", "3", 4, x], [60.0, 100.0, 3, 4, x]),
              "nested": ([[1, 2], [3]], [[1, 2], [3]])}
     for name, (given, want) in cases.items():
         pipe = DetectionPipeline(photon_collection=[ModelFunction(func="vxprobes.probe", name="m1", arguments={"opt": None})])
@@ -311,6 +312,35 @@ def list_values():
         got = proc.get(key)
         ok = isinstance(got, list) and len(got) == len(want) and all((g is w) or (type(g) is type(w) and g == w) or (vx.is_sym(w) and g is w) for g, w in zip(got, want))
         vx.prove(f"C08/set/list_values/{name}", ok, got=repr(got)[:120])
+
+
+POOL = [(0, 0), (False, False), (0.0, 0.0), ("", ""), ("1e2", 100.0), ("3", 3), ("abc", "abc"), ("[1, 2]", [1, 2]), (4, 4), (60.5, 60.5), ("-7", -7), ("2.5e-3", 0.0025)]
+
+
+def _same(g, w):
+    return (g is w) or (type(g) is type(w) and g == w)
+
+
+def list_pairs():
+    """Every ordered triple-free combination: lists of two and three elements drawn from a pool of numbers, falsy values,
+    numeric text and plain text; each element must come back as what it literally denotes, independently of its neighbours."""
+    from pyxel.pipelines import DetectionPipeline, ModelFunction, Processor
+
+    key = "pipeline.photon_collection.m1.arguments.opt"
+    pipe = DetectionPipeline(photon_collection=[ModelFunction(func="vxprobes.probe", name="m1", arguments={"opt": None})])
+    proc = Processor(detector=_make_det("ccd"), pipeline=pipe)
+    sym = vx.real("x")
+    bad = []
+    n = len(POOL)
+    combos = [(i, j) for i in range(n) for j in range(n)] + [(i, j, (i + j + 1) % n) for i in range(n) for j in range(n)]
+    for combo in combos:
+        given = [POOL[i][0] for i in combo] + [sym]
+        want = [POOL[i][1] for i in combo] + [sym]
+        proc.set(key, list(given))
+        got = proc.get(key)
+        if not (isinstance(got, list) and len(got) == len(want) and all(_same(g, w) for g, w in zip(got, want))):
+            bad.append(list(combo))
+    vx.prove("C08/set/list_values/combinations", not bad, first_bad=str(bad[:3]))
 
 
 def disabled_model():
@@ -564,12 +594,27 @@ def replay(oid, kwargs, model, data):
             except Exception:  # noqa: BLE001
                 pass
         return bool(out), {"accepted_bad_keys": out}
+    if fn == "list_pairs":
+        from pyxel.pipelines import DetectionPipeline, ModelFunction, Processor
+
+        pipe = DetectionPipeline(photon_collection=[ModelFunction(func="vxprobes.probe", name="m1", arguments={"opt": None})])
+        proc = Processor(detector=_make_det("ccd"), pipeline=pipe)
+        n = len(POOL)
+        xv = float(model.get("x", 0.0))
+        for combo in [(i, j) for i in range(n) for j in range(n)] + [(i, j, (i + j + 1) % n) for i in range(n) for j in range(n)]:
+            given = [POOL[i][0] for i in combo] + [xv]
+            want = [POOL[i][1] for i in combo] + [xv]
+            proc.set("pipeline.photon_collection.m1.arguments.opt", list(given))
+            got = proc.get("pipeline.photon_collection.m1.arguments.opt")
+            if not (isinstance(got, list) and len(got) == len(want) and all(_same(g, w) for g, w in zip(got, want))):
+                return True, {"assigned": repr(given), "read_back": repr(got), "denotes": repr(want)}
+        return False, {}
     if fn == "list_values":
         from pyxel.pipelines import DetectionPipeline, ModelFunction, Processor
 
         name = oid.rsplit("/", 1)[-1]
         given, want = {"falsy": ([0, False, 0.0, 1.5], [0, False, 0.0, 1.5]), "text": (["1", "2.5", "abc", "[1, 2]"], [1, 2.5, "abc", [1, 2]]),
-                       "empty_string": ([""], [""]), "nested": ([[1, 2], [3]], [[1, 2], [3]])}[name]
+                       "empty_string": ([""], [""]), "mixed": ([60.0, "1e2", "3", 4, 1.5], [60.0, 100.0, 3, 4, 1.5]), "nested": ([[1, 2], [3]], [[1, 2], [3]])}[name]
         pipe = DetectionPipeline(photon_collection=[ModelFunction(func="vxprobes.probe", name="m1", arguments={"opt": None})])
         proc = Processor(detector=_make_det("ccd"), pipeline=pipe)
         proc.set("pipeline.photon_collection.m1.arguments.opt", given)
